@@ -46,7 +46,11 @@ func (vc *VC) paramEnv(fn *ssa.Function, fc *FuncContract, args []Val, bind []Va
 		}
 	}
 	if fc != nil && len(fc.ParamNames) > 0 {
-		for i, n := range fc.ParamNames {
+		pn := fc.ParamNames
+		if sig.Recv() == nil && fn.Parent() != nil && len(pn) == len(names)+1 {
+			pn = pn[1:] // function literal inside a method: the header names the enclosing receiver
+		}
+		for i, n := range pn {
 			if i < len(names) && n != "_" && n != "" {
 				names[i] = n
 			}
@@ -166,6 +170,15 @@ func (env *SpecEnv) modTargets(exprs []*SExpr) (out []modTarget) {
 			case m.Kind == SSel:
 				// x.f
 				x := env.eval(m.X)
+				if _, isIface := x.T.Underlying().(*types.Interface); isIface {
+					if g := vc.eng.ghostField(x.T, m.Name); g != nil {
+						gty := env.resolveTypeIn(g)
+						p := &VPtr{Kind: PCell, Base: env.scalar(x), Root: x.T}
+						key, base := vc.ghostLoc(p, x.T, m.Name)
+						out = append(out, modTarget{key: key, sort: SArr(SRef, ghostSort(gty)), idx: base})
+						return
+					}
+				}
 				bt, isPtr := derefType(x.T)
 				if !isPtr {
 					// package-level variable?
@@ -292,6 +305,9 @@ func (fr *Frame) contractCall(fn *ssa.Function, fc *FuncContract, args []Val, bi
 			vc.havocWriteSet(st, ws)
 		}
 	}
+	if fc.Flags["clock"] != "" {
+		vc.advanceClock(st)
+	}
 	sig := fn.Signature
 	var results []Val
 	for i := 0; i < sig.Results().Len(); i++ {
@@ -303,6 +319,9 @@ func (fr *Frame) contractCall(fn *ssa.Function, fc *FuncContract, args []Val, bi
 	defer vc.withTag('E')()
 	for _, c := range fc.Ensures {
 		if c.Local && !samePkg {
+			continue
+		}
+		if c.Internal {
 			continue
 		}
 		if strings.HasPrefix(c.Name, "inv") {
@@ -323,6 +342,70 @@ func (fr *Frame) contractCall(fn *ssa.Function, fc *FuncContract, args []Val, bi
 	} else if fc.Trusted {
 		vc.note("trusted contract (body not verified): " + fc.Key)
 	}
+	return packResults(sig, results)
+}
+
+// ifaceEnv: spec environment of an (assumed) contract on an interface method; parameter names come from the header.
+func (vc *VC) ifaceEnv(sig *types.Signature, recvT types.Type, pkg *types.Package, fc *FuncContract, args []Val, st, old *State) *SpecEnv {
+	env := vc.newEnv(pkg, st, old)
+	env.imports = map[string]string{}
+	for k, v := range vc.eng.contracts.Imports[fc.File] {
+		env.imports[k] = v
+	}
+	for k, v := range vc.eng.importsOf(pkg) {
+		if _, ok := env.imports[k]; !ok {
+			env.imports[k] = v
+		}
+	}
+	typs := []types.Type{recvT}
+	for i := 0; i < sig.Params().Len(); i++ {
+		typs = append(typs, sig.Params().At(i).Type())
+	}
+	for i, n := range fc.ParamNames {
+		if i < len(args) && i < len(typs) && n != "_" && n != "" {
+			env.vars[n] = TV{args[i], typs[i]}
+		}
+	}
+	return env
+}
+
+// ifaceContractCall: call of an interface method that carries an assumed abstract contract.
+func (fr *Frame) ifaceContractCall(sig *types.Signature, recvT types.Type, method string, pkg *types.Package, fc *FuncContract, args []Val, st *State, pos string) Val {
+	vc := fr.vc
+	short := typeKey(recvT) + "." + method
+	env := vc.ifaceEnv(sig, recvT, pkg, fc, args, st, st)
+	for _, c := range fc.Requires {
+		g := env.clause(c)
+		props := c.Props
+		if len(props) == 0 {
+			props = fc.Props
+		}
+		vc.oblige(st, "requires", fr.name("pre."+short+"."+c.Name+"@"+shortPos(pos)), pos, "precondition of "+short+": "+c.Src, g, props)
+		vc.assume(st, g)
+	}
+	pre := st.clone()
+	ts := env.modTargets(fc.Modifies)
+	vc.suppressTouch = true
+	vc.havocTargets(st, ts)
+	vc.suppressTouch = false
+	vc.framePreds(pre, st, ts)
+	if !fc.Pure {
+		vc.growAlloc(st)
+	}
+	if fc.Flags["clock"] != "" {
+		vc.advanceClock(st)
+	}
+	var results []Val
+	for i := 0; i < sig.Results().Len(); i++ {
+		results = append(results, vc.havocVal(st, sig.Results().At(i).Type(), "r$"+method))
+	}
+	post := vc.ifaceEnv(sig, recvT, pkg, fc, args, st, pre)
+	bindResults(post, sig, results)
+	defer vc.withTag('E')()
+	for _, c := range fc.Ensures {
+		vc.assume(st, post.clause(c))
+	}
+	vc.note("abstract interface contract assumed: " + fc.Key)
 	return packResults(sig, results)
 }
 
@@ -407,6 +490,7 @@ func (e *Engine) verifyFuncPass(fn *ssa.Function, fc *FuncContract, sweepProps [
 	}()
 	st := &State{heap: map[string]*Term{}, locals: map[*ssa.Alloc]Val{}, reach: tTrue}
 	args, bind := vc.symbolicArgs(fn, st)
+	vc.assume(st, mkAnd(mkCmp(">", vc.nowOf(st), mkInt(0)), mkCmp("<=", vc.nowOf(st), mkBig(pow2(62)))))
 	env := vc.paramEnv(fn, fc, args, bind, st, st)
 	if fc != nil {
 		untag := vc.withTag('R')
@@ -460,12 +544,12 @@ func (e *Engine) verifyFuncPass(fn *ssa.Function, fc *FuncContract, sweepProps [
 		points = []exitPoint{{res.st, res.results, ""}}
 	}
 	for _, pt := range points {
-		vc.exitObligations(fn, fc, args, bind, pt.st, pt.results, pt.suffix)
+		vc.exitObligations(fn, fc, args, bind, pt.st, pt.results, pt.suffix, res.fr)
 	}
 	return vc
 }
 
-func (vc *VC) exitObligations(fn *ssa.Function, fc *FuncContract, args, bind []Val, st *State, results []Val, suffix string) {
+func (vc *VC) exitObligations(fn *ssa.Function, fc *FuncContract, args, bind []Val, st *State, results []Val, suffix string, fr *Frame) {
 	res := &execResult{st: st, results: results}
 	{
 		// ghost updates (performed at exit)
@@ -495,7 +579,14 @@ func (vc *VC) exitObligations(fn *ssa.Function, fc *FuncContract, args, bind []V
 		post := vc.paramEnv(fn, fc, args, bind, res.st, vc.entry)
 		bindResults(post, fn.Signature, res.results)
 		for _, c := range fc.Ensures {
-			g := post.clause(c)
+			cenv := post
+			if c.Internal {
+				ie := *post
+				ie.fr = fr
+				ie.atExit = true
+				cenv = &ie
+			}
+			g := cenv.clause(c)
 			vc.oblige(res.st, "ensures", vc.oname(c.Name+suffix), vc.pos(fn.Pos()), "postcondition: "+c.Src, g, c.Props)
 			// later postconditions may use earlier ones as lemmas (each is still proved on its own)
 			untag := vc.withTag('L')
